@@ -149,7 +149,7 @@ func (z *zzBub) observe() {
 			if prev != "" && !zzReachable(prev, cur, 3) {
 				z.fail("C09", "undocumented-transition/"+prev+">"+cur, "space %s went from %s to %s", zzShortSid(sid), prev, cur)
 			}
-			if cur == "plotting" || (cur == "mining" && prev != "plotting") {
+			if cur == "plotting" || cur == "mining" {
 				z.checkAsked(sid, cur)
 			}
 			z.last[sid] = cur
@@ -422,9 +422,9 @@ func (z *zzBub) genOp(client, burstMax int) func() {
 	pick := func() string { return z.sids[t.Choose("op.sid", len(z.sids))] }
 	acts := []engine.ActionType{engine.Plot, engine.Mine, engine.Stop, engine.Remove, engine.Delete}
 	names := []string{"plot", "mine", "stop", "remove", "delete"}
-	w := []int{8, 6, 8, 2, 2, 3, 3, 0, 0}
+	w := []int{8, 6, 8, 2, 2, 3, 3, 0, 0, 4, 3}
 	if z.focus == "C13" {
-		w = []int{8, 6, 8, 2, 2, 3, 3, 3, 0}
+		w = []int{8, 6, 8, 2, 2, 3, 3, 3, 0, 2, 1}
 		if burstMax > 0 {
 			w[8] = 6
 		}
@@ -472,6 +472,36 @@ func (z *zzBub) genOp(client, burstMax int) func() {
 				c2 := z.begin(client, "keeper-start", "")
 				err := sk.Start()
 				z.end(c2, err)
+			}
+		}
+	case 9:
+		// the client pauses: the plotter gets ahead
+		n := []int{5, 25, 120}[t.Choose("pause.n", 3)]
+		return func() {
+			for i := 0; i < n; i++ {
+				vsim.Yield("client pause")
+			}
+		}
+	case 10:
+		// the client waits until a plot of this space has ended (or gives up), so that its next
+		// request meets the plotter while it records the end of the plot
+		sid := pick()
+		return func() {
+			seen := false
+			for i := 0; i < 600; i++ {
+				ws, ok := sk.workSpaceIndex[allState].Get(sid)
+				if !ok {
+					return
+				}
+				if ws.state == engine.Plotting {
+					seen = true
+					if ws.Progress() >= 100 {
+						return
+					}
+				} else if seen || i > 40 {
+					return
+				}
+				vsim.Yield("client waits for plot")
 			}
 		}
 	default:
